@@ -90,6 +90,11 @@ CHECKS = {
          "Validity is judged on the parsed value (1.2.3.4:06000 is kept under that key); private IPv4 ranges count as global unicast as in Go's net package; a custom peers file at start-up is outside the claim.",
          "TLA+ spec + TLC exhaustive model checking; record->validate of a real Pex by TLC",
          "DESIGN.md 4.6, 5 C26, 9"),
+ "C27": ("apigate", "exploration",
+         "ApiGate.tla states the access decision in the order the checks apply: basic auth (exactly the configured username and password, or none when none is configured), JSON content type for v2 POST, Host check, Origin-else-Referer check, CSRF token for POST/PUT/DELETE (only the most recently issued unexpired token of this node), method served, one of the endpoint's API sets enabled. The route table (49 endpoints: URI, methods, API sets) is generated from the documentation src/api/README.md and frozen in ApiRoutes.tla. The real server mux (api.create) is asked documented route x {GET,POST,PUT,DELETE} under seeded configurations and header classes through an in-package test with the stub gateway (a call into it shows that the endpoint's logic ran); TLC evaluates the verdict for every record and compares status and refusing check.",
+         "Sampling of the product space (120 configurations x 60 requests in the quick tier); two recorded known findings (stateless CSRF tokens; wallet-recover's API set differs from the documentation); CORS pre-flight not exercised.",
+         "TLA+ decision function over a documented route table, evaluated by TLC on recorded requests to the real server mux",
+         "DESIGN.md 4.7, 5 C27, 9"),
  "C29": ("fn", "model_checking",
          "Fn.tla defines page bounds over exact naturals; MCPaging walks pages 1..N+2 for every list length <= 25 and page size <= 7 and checks that they concatenate to the list exactly once, that N is the reported count and later pages are empty. The real PageIndex.Cal and txnHashesContainer.Pagination (de-duplicated lists, page numbers up to 2^64-1 including wrap-around values) are recorded and TLC checks every record against the same definitions.",
          "The filter/sort steps before paging are not modelled (ordering and de-duplication are taken from the container); TLC/SANY/Json trusted.",
